@@ -7,10 +7,11 @@
    (products / sums range over a duplicate-free universe U containing the decaying particles).
    For an acyclic chain these equations have exactly one solution (the product over the tree,
    each decay counted as often as it occurs; the number of leaves x).
-   Partial correctness: the theorems speak about every run that returns (FOk); that the loop
-   returns for acyclic chains is exercised by the correspondence, not proved here. *)
+   The first theorems speak about every run that returns (FOk); C12_terminates shows that the loop returns for
+   every acyclic chain (fuel above the rank of the mother suffices) — together: total correctness. *)
 From Coq Require Import String List Bool ZArith QArith Qcanon.
-From DL Require Import Lib.Val Lib.PyDict Lib.Monoid Decay.Conj Decay.Flatten Decay.FlattenProofs.
+From Coq Require Import Arith Lia.
+From DL Require Import Lib.Val Lib.PyDict Lib.Monoid Decay.Conj Decay.Flatten Decay.FlattenProofs Decay.FlattenTermination.
 Import ListNotations.
 Close Scope Q_scope.
 Open Scope string_scope.
@@ -81,3 +82,30 @@ Example C12_example_run :
             dd_to_list (m_fs r) = ["gamma"; "gamma"; "gamma"; "gamma"; "pi+"; "pi-"] /\
             m_meta r = [("model", VStr "PHSP"); ("model_params", VStr "")].
 Proof. eexists. split; [vm_compute; reflexivity|]. vm_compute. repeat split. Qed.
+
+(* termination: for an acyclic chain (a rank that decreases from every substituted particle to its substituted daughters) the
+   fix-point loop returns within (rank of the mother) + 1 passes: flatten never runs out of fuel, so with C12_branching_fraction /
+   C12_final_state the result is the product over the tree and exactly its leaves — total correctness *)
+Theorem C12_terminates :
+  forall c stable (rank : string -> nat),
+  (forall k m, pd_get k (c_decays c) = Some m -> NoDup (pd_keys (m_fs m))) ->
+  (forall k m d, substituted c stable k -> pd_get k (c_decays c) = Some m -> substituted c stable d ->
+                 0 < dd_get d (m_fs m) -> rank d < rank k) ->
+  forall fuel, rank (c_mother c) < fuel -> flatten fuel c stable <> FOutOfFuel.
+Proof. exact flatten_terminates. Qed.
+Print Assumptions C12_terminates.
+
+Definition ex_rank (s : string) : nat := if String.eqb s "D0" then 1 else 0.
+Example C12_example_terminates : flatten 2 ex_chain [] <> FOutOfFuel.
+Proof.
+  apply (C12_terminates ex_chain [] ex_rank); [| |vm_compute; lia].
+  - intros k m H. cbn in H.
+    destruct (String.eqb k "pi0"); [injection H as <-; vm_compute; repeat constructor; cbn; intuition discriminate|].
+    destruct (String.eqb k "D0"); [injection H as <-; vm_compute; repeat constructor; cbn; intuition discriminate|].
+    destruct (String.eqb k "K_S0"); [injection H as <-; vm_compute; repeat constructor; cbn; intuition discriminate|discriminate].
+  - intros k m d _ H Hsub Hpos. destruct Hsub as [Hd _]. cbn in H, Hd.
+    assert (Dk : d = "pi0" \/ d = "D0" \/ d = "K_S0") by (destruct Hd as [E|[E|[E|E]]]; [auto|auto|auto|destruct E]).
+    destruct (String.eqb_spec k "pi0") as [Ek|_]; [subst k; injection H as <-; destruct Dk as [E|[E|E]]; subst d; vm_compute in Hpos; lia|].
+    destruct (String.eqb_spec k "D0") as [Ek|_]; [subst k; injection H as <-; destruct Dk as [E|[E|E]]; subst d; vm_compute in Hpos |- *; lia|].
+    destruct (String.eqb_spec k "K_S0") as [Ek|_]; [subst k; injection H as <-; destruct Dk as [E|[E|E]]; subst d; vm_compute in Hpos; lia|discriminate].
+Qed.
